@@ -490,6 +490,31 @@ def rule_test_bindings(rep: Report, repo: Repo, r_scan: str, r_filter: str) -> N
                     rep.check(c == cls, r_scan, WHERE + ".process_" + k, f"{ev} {k} creates {c}", f"{k}() creates a {c} (wrong warning text / signature)")
                     info = _scan_info(r, lm, f.get("name"))
                     w = f"{k}(EXTRA x NAME the_name)"
+                    decl = _declarative_name(nf_for(lm, r), r, f.get("name")) if info is None else None
+                    if decl is not None:
+                        ok, msg, K = decl
+                        rep.check(ok, r_scan, WHERE + ".process_" + k, f"name <- {pretty(nf_for(lm, r).nf(f.get('name')))}"[:100], msg, witness=w)
+                        if k == "add_test":
+                            got = nf_for(lm, r).nf(f.get("params"))
+                            PARAMS = ("map", ("text", IT), A)
+                            if K is None:
+                                ok3, msg3 = got == PARAMS, "without a NAME keyword the signature must be all arguments"
+                            else:
+                                want = ("concat", ("map", ("text", IT), ("slice", A, const(0), K)),
+                                        ("map", ("text", IT), ("slice", A, ("concat", K, const(2)), NONE)))
+                                ok3, msg3 = got == want, f"the signature is `{pretty(got)[:90]}`, expected the arguments before and after the NAME pair"
+                                if not ok3:
+                                    ok3, msg3 = _check_positional_filter(got, r, lm)
+                            rep.check(ok3, r_filter, WHERE + ".process_add_test", f"params = {pretty(got)}"[:130], msg3,
+                                      witness="add_test(NAME t COMMAND t --flag)  =>  t(COMMAND --flag)", key=f"{r_filter}|add_test-params")
+                            continue
+                        ef = f.get("expect_fail")
+                        anyv = _any_keyword(nf_for(lm, r).nf(ef), "EXPECTFAIL") if ef is not None else None
+                        if anyv is None:
+                            raise AnalysisError(f"process_{k}: the EXPECTFAIL lookup is not a recognised keyword test")
+                        rep.check(anyv[0], r_scan, WHERE + ".process_" + k, f"expect_fail <- {pretty(nf_for(lm, r).nf(ef))}"[:110], anyv[1],
+                                  witness=f"{k}(EXPECTFAIL NAME t)")
+                        continue
                     if info is None or info.get("unknown"):
                         raise AnalysisError(f"process_{k}: the NAME lookup is not a recognised keyword scan over the arguments "
                                             f"({show(f.get('name'))[:60]})")
@@ -520,6 +545,41 @@ def rule_test_bindings(rep: Report, repo: Repo, r_scan: str, r_filter: str) -> N
                                   witness="add_test(NAME t COMMAND t --flag)  =>  t(COMMAND --flag)", key=f"{r_filter}|add_test-params")
     rep.floor(r_scan, 10, "keyword scans")
     rep.floor(r_filter, 1, "add_test signature")
+
+
+def _kw_positions(t, kw: str) -> bool:
+    """[i for i, p in enumerate(PARAMS) if p.upper() == KW]: the list of keyword positions."""
+    PARAMS = ("map", ("text", IT), A)
+    if not (t[0] == "comp" and t[1] == "list" and len(t[3]) == 1):
+        return False
+    var, it, conds = t[3][0]
+    m = re.fullmatch(r"\((\w+), (\w+)\)", var) if isinstance(var, str) else None
+    if not m or it != ("call", ("global", "enumerate"), (PARAMS,), ()) or t[2] != ("bv", m.group(1)) or len(conds) != 1:
+        return False
+    return conds[0] == ("cmp", "==", ("call", ("attr", ("bv", m.group(2)), "upper"), (), ()), const(kw))
+
+
+def _kw_position(t, kw: str) -> bool:
+    """positions[-1] / positions[0]: which of several NAME keywords wins is not fixed by the property."""
+    return t[0] == "index" and t[2] in (const(-1), const(0)) and _kw_positions(t[1], kw)
+
+
+def _declarative_name(nf, r: Row, name_t, kw: str = "NAME"):
+    """name = params[K + 1] with K a keyword position computed by comprehension (no scan loop); '' when there is none.
+    Returns None when the term is not of this family, else (ok, message, K)."""
+    t = nf.nf(name_t)
+    if t[0] == "text" and t[1][0] == "index" and t[1][1] == A:
+        i = t[1][2]
+        if i[0] == "concat" and i[2] == const(1) and _kw_position(i[1], kw):
+            return True, "", i[1]
+        if _kw_position(i, kw):
+            return False, f"the name is the {kw} keyword itself, not the argument following it", i
+        return None
+    if t == const(""):
+        for a, v in r.outcome.conds:
+            if a[0] == "nonempty" and _kw_positions(nf.nf(a[1]), kw):
+                return (True, "", None) if not v else (False, f"the name stays '' although a {kw} keyword is present", None)
+    return None
 
 
 def _any_keyword(t, kw: str):
@@ -664,12 +724,20 @@ def rule_module_doc_verbatim(rep: Report, repo: Repo, rule: str) -> None:
             d = f["doc"]
             n += 1
             ok = False
+            whole = None
             if d[0] == "call" and d[1] == ("attr", const("\n"), "join") and len(d[2]) == 1:
+                # "\n".join(X.split("\n")[1:])
                 x = d[2][0]
                 if x[0] == "slice" and x[2] == const(1) and x[3] == NONE and x[4] == NONE:
                     base = x[1]
-                    ok = base[0] == "call" and base[1][0] == "attr" and base[1][2] == "split" and base[2] == (const("\n"),) and \
-                        "clean_doc_lines" in show(base[1][1]) and "Module_docstring().getText()" in show(base[1][1])
+                    if base[0] == "call" and base[1][0] == "attr" and base[1][2] == "split" and base[2] == (const("\n"),) and not base[3]:
+                        whole = base[1][1]
+            elif d[0] == "sub" and d[2] == const(2) and d[1][0] == "call" and d[1][1][0] == "attr" and d[1][1][2] == "partition" \
+                    and d[1][2] == (const("\n"),):
+                # X.partition("\n")[2]: the same string
+                whole = d[1][1][1]
+            if whole is not None:
+                ok = "clean_doc_lines" in show(whole) and "Module_docstring().getText()" in show(whole)
             rep.check(ok, rule, WHERE + ".enterDocumented_module", f"module doc = {show(d)[:110]}",
                       "the body of the module doccomment is altered line by line (strip, filter, re-indent): relative indentation of "
                       "nested reST constructs is lost", witness="#[[[ @module m\n# .. note::\n#    body\n#]]")
